@@ -282,6 +282,11 @@ class AbsRun:
                 self.env[s.targets[0].id] = Form.var(s.targets[0].id)
                 self.unknown.add(s.targets[0].id)
             return
+        if isinstance(s, ast.Assign) and len(s.targets) > 1 and all(isinstance(t, ast.Name) for t in s.targets):
+            v = self.ev.ev(s.value)
+            for t in s.targets:
+                self.env[t.id] = v
+            return
         if isinstance(s, ast.Assign) and len(s.targets) == 1 and isinstance(s.targets[0], ast.Tuple) and isinstance(s.value, ast.Tuple) \
                 and len(s.targets[0].elts) == len(s.value.elts) and all(isinstance(t, ast.Name) for t in s.targets[0].elts):
             vals = []
